@@ -144,7 +144,7 @@ impl Check for HdlcCheck {
     }
     fn budget(&self, tier: Tier) -> Budget {
         match tier {
-            Tier::Quick => Budget { runs: 40_000, max_secs: 45.0 },
+            Tier::Quick => Budget { runs: 200000, max_secs: 40.0 },
             Tier::Thorough => Budget { runs: 5_000_000, max_secs: 900.0 },
         }
     }
